@@ -241,6 +241,12 @@ def variants(draw):
             s["tlead"] = draw(TPAD)
             s["ttrail"] = draw(TPAD)
     spec = {"nl": draw(st.sampled_from(["\n", "\n", "\r\n"])), "final_nl": draw(st.sampled_from([True, True, False])), "sections": secs}
+    var = draw(S.scaffold())
+    if var:
+        var["drop_wrap_no"] = False  # keeps the normalised base identical in content; title spellings are the point here
+        var["dlm_space"] = False
+        var.get("titles", {}).pop("A", None)
+        S.apply_scaffold(spec, var)
     return {"spec": spec, "mnemonic_case": draw(st.sampled_from(["upper", "preserve"])), "engine": draw(st.sampled_from(["numpy", "normal"]))}
 
 
